@@ -749,6 +749,50 @@ def _retort_in_recipe(inner_syms, outer_sym, bound_to, report):
 
 # ---------------------------------------------------------------------------------------------------------------
 
+def _same_provider_object_leg(report):
+    """a recipe is a SEQUENCE of providers: the same provider object placed at several positions (twice in one recipe, in the class
+    recipe and in the instance recipe, added once more by extend()) is consulted / chained once per position.  All sequences of
+    length <= 3 over three chaining providers x all splits of the sequence into (extend recipe, instance recipe, class recipe);
+    reference: the fold of the chain over the full sequence."""
+    import itertools
+    from adaptix import Chain, Retort, loader
+    provs = {
+        "inc": (loader(int, lambda x: x + 1, Chain.FIRST), "first", lambda x: x + 1),
+        "tri": (loader(int, lambda x: x * 3, Chain.FIRST), "first", lambda x: x * 3),
+        "dbl": (loader(int, lambda x: x * 2, Chain.LAST), "last", lambda x: x * 2),
+    }
+
+    def fold(seq, x):
+        if not seq:
+            return x
+        _, how, f = provs[seq[0]]
+        return fold(seq[1:], f(x)) if how == "first" else f(fold(seq[1:], x))
+    for n in (1, 2, 3):
+        for seq in itertools.product(provs, repeat=n):
+            if len(set(seq)) == n:
+                continue        # only sequences in which some provider object occurs more than once
+            for cut1 in range(n + 1):
+                for cut2 in range(cut1, n + 1):
+                    ext, inst, cls_part = seq[:cut1], seq[cut1:cut2], seq[cut2:]
+                    case = {"part": "same_provider_object", "extend": list(ext), "instance": list(inst), "class": list(cls_part)}
+                    report.case(("same_object", seq, cut1, cut2), nontrivial=True, sample=case)
+                    report.count("traces_validated_against_impl", 1)
+                    try:
+                        klass = type("ProjectRetort", (Retort,), {"recipe": [provs[k][0] for k in cls_part]})
+                        r = klass(recipe=[provs[k][0] for k in inst])
+                        if ext:
+                            r = r.extend(recipe=[provs[k][0] for k in ext])
+                        got = r.load(10, int)
+                    except Exception as e:  # noqa: BLE001
+                        got = f"{type(e).__name__}: {str(e)[:80]}"
+                    want = fold(seq, 10)
+                    report.outcome("same_object:" + ("ok" if got == want else "differs"))
+                    if got != want:
+                        report.violation({"check": "C09", "part": "same_provider_object"},
+                                         f"the same provider objects at several positions - extend {list(ext)}, instance recipe {list(inst)}, "
+                                         f"class recipe {list(cls_part)}: load(10, int) = {got!r}, one application per position gives {want!r}", case)
+
+
 def run(tier):
     report = Report()
     plan = recipes_for(tier)
@@ -765,6 +809,7 @@ def run(tier):
     part2(tier, report)
     _delegating_field_types(report)
     _inner_retort_cannot_serve(report)
+    _same_provider_object_leg(report)
     return report
 
 
@@ -792,6 +837,11 @@ def replay(case):
         recipe = tuple(tuple(s) for s in case["recipe"])
         problem = compare(recipe, case["request"], case["direction"], report)
         return problem[1] if problem else None
+    if part == "same_provider_object":
+        _same_provider_object_leg(report)
+        for v in report.violations.values():
+            return v["what"]
+        return None
     # histories / subclass / retort-in-recipe are cheap: re-run part 2 completely and report the first violation
     part2("thorough", report)
     for v in report.violations.values():
